@@ -524,21 +524,16 @@ func runC01(c *Ctx, r *Report) {
 // checkCapturedOutput: a function that points State.Out at a local buffer owes the captured bytes to
 // the writer it replaced, on every way out (rule C01.R6).
 func (c *Ctx) checkCapturedOutput(r *Report) {
-	stateT := c.TypeNamed("eval", "State")
-	outIdx := fieldIndex(stateT, "Out")
-	if outIdx < 0 {
+	fc := c.newFlushCtx()
+	if fc == nil {
 		r.Undecided("C01.R6: eval.State.Out not found")
 		return
-	}
-	isOutAddr := func(v ssa.Value) bool {
-		fa, ok := v.(*ssa.FieldAddr)
-		return ok && fa.Field == outIdx && namedStruct(fa.X.Type()) != nil && namedStruct(fa.X.Type()).Obj() == stateT.Obj()
 	}
 	n := 0
 	for _, fn := range c.ModuleSSAFuncs() {
 		eachInstr(fn, func(in ssa.Instruction) {
 			st, ok := in.(*ssa.Store)
-			if !ok || !isOutAddr(st.Addr) {
+			if !ok || !fc.isOutAddr(st.Addr) {
 				return
 			}
 			mi, ok := st.Val.(*ssa.MakeInterface)
@@ -556,125 +551,7 @@ func (c *Ctx) checkCapturedOutput(r *Report) {
 			}
 			n++
 			fname := ssaFuncName(fn)
-			isBufCall := func(v ssa.Value, method string) bool {
-				call, ok := v.(*ssa.Call)
-				if !ok {
-					return false
-				}
-				obj := calleeObj(call)
-				return obj != nil && obj.Name() == method && len(call.Common().Args) > 0 && call.Common().Args[0] == ssa.Value(buf)
-			}
-			var fromBytes func(v ssa.Value, seen map[ssa.Value]bool) bool
-			fromBytes = func(v ssa.Value, seen map[ssa.Value]bool) bool {
-				if seen[v] {
-					return false
-				}
-				seen[v] = true
-				if isBufCall(v, "Bytes") || isBufCall(v, "String") {
-					return true
-				}
-				if phi, ok := v.(*ssa.Phi); ok {
-					for _, e := range phi.Edges {
-						if fromBytes(e, seen) {
-							return true
-						}
-					}
-				}
-				return false
-			}
-			// restore: a store to Out of something that is not this buffer
-			isRestore := func(x ssa.Instruction) bool {
-				s2, ok := x.(*ssa.Store)
-				if !ok || !isOutAddr(s2.Addr) {
-					return false
-				}
-				if m2, ok := s2.Val.(*ssa.MakeInterface); ok && m2.X == ssa.Value(buf) {
-					return false
-				}
-				return true
-			}
-			// flush: Write(bytes of buf) on a writer read from Out
-			isFlush := func(x ssa.Instruction) bool {
-				call, ok := x.(*ssa.Call)
-				if !ok || !call.Common().IsInvoke() || call.Common().Method.Name() != "Write" {
-					return false
-				}
-				ld, ok := call.Common().Value.(*ssa.UnOp)
-				if !ok || !isOutAddr(ld.X) {
-					return false
-				}
-				return len(call.Common().Args) == 1 && fromBytes(call.Common().Args[0], map[ssa.Value]bool{})
-			}
-			// emptyEdge: the false edge of buf.Len() > 0 (or the true edge of == 0)
-			emptyEdge := func(b *ssa.BasicBlock) int {
-				ifi, ok := b.Instrs[len(b.Instrs)-1].(*ssa.If)
-				if !ok {
-					return -1
-				}
-				bin, ok := ifi.Cond.(*ssa.BinOp)
-				if !ok || !isBufCall(bin.X, "Len") {
-					return -1
-				}
-				if k, ok := constInt(bin.Y); !ok || k != 0 {
-					return -1
-				}
-				switch bin.Op {
-				case token.GTR, token.NEQ:
-					return 1
-				case token.EQL, token.LEQ:
-					return 0
-				}
-				return -1
-			}
-			type key struct {
-				b                 *ssa.BasicBlock
-				restored, flushed bool
-			}
-			seen := map[key]bool{}
-			var bad *pathResult
-			var why string
-			var walk func(b *ssa.BasicBlock, from int, restored, flushed bool, trail []*ssa.BasicBlock)
-			walk = func(b *ssa.BasicBlock, from int, restored, flushed bool, trail []*ssa.BasicBlock) {
-				if bad != nil {
-					return
-				}
-				if from == 0 {
-					k := key{b, restored, flushed}
-					if seen[k] {
-						return
-					}
-					seen[k] = true
-				}
-				trail = append(trail, b)
-				for i := from; i < len(b.Instrs); i++ {
-					x := b.Instrs[i]
-					if isRestore(x) {
-						restored = true
-					}
-					if isFlush(x) && restored {
-						flushed = true
-					}
-					if _, isRet := x.(*ssa.Return); isRet {
-						if !restored || !flushed {
-							bad = &pathResult{exit: x, trace: append([]*ssa.BasicBlock{}, trail...)}
-							if !restored {
-								why = "State.Out still points at the local buffer at this return"
-							} else {
-								why = "the bytes captured in the local buffer are not written to the restored writer on this path: what the callee printed is lost"
-							}
-						}
-						return
-					}
-					if _, isPanic := x.(*ssa.Panic); isPanic {
-						return
-					}
-				}
-				ee := emptyEdge(b)
-				for i, s := range b.Succs {
-					walk(s, 0, restored, flushed || (i == ee && restored), trail)
-				}
-			}
-			walk(st.Block(), instrIndex(st)+1, false, false, nil)
+			bad, why := fc.allPathsFlush(st.Block(), instrIndex(st)+1, buf, true, 0)
 			desc := "output captured in a local buffer is written to the replaced writer on every return"
 			if bad != nil {
 				r.Fail("C01.R6", fname, desc, c.Pos(instrPos(bad.exit)), why, c.tracePath(bad)...)
@@ -687,6 +564,204 @@ func (c *Ctx) checkCapturedOutput(r *Report) {
 		r.Undecided("C01.R6: no redirection of State.Out to a local buffer found (applyFunction is expected to)")
 	}
 	r.Floor("C01.R6", 1)
+}
+
+// flushCtx: helpers shared by C01.R6 and C04.R1 to recognise "the bytes of this buffer" and "written to
+// State.Out", directly or through one level of helper functions.
+type flushCtx struct {
+	c      *Ctx
+	stateT *types.Named
+	outIdx int
+}
+
+func (c *Ctx) newFlushCtx() *flushCtx {
+	stateT := c.TypeNamed("eval", "State")
+	outIdx := fieldIndex(stateT, "Out")
+	if outIdx < 0 {
+		return nil
+	}
+	return &flushCtx{c, stateT, outIdx}
+}
+
+func (fc *flushCtx) isOutAddr(v ssa.Value) bool {
+	fa, ok := v.(*ssa.FieldAddr)
+	return ok && fa.Field == fc.outIdx && namedStruct(fa.X.Type()) != nil && namedStruct(fa.X.Type()).Obj() == fc.stateT.Obj()
+}
+
+func isBufMethod(v ssa.Value, buf ssa.Value, method string) bool {
+	call, ok := v.(*ssa.Call)
+	if !ok {
+		return false
+	}
+	obj := calleeObj(call)
+	return obj != nil && obj.Name() == method && len(call.Common().Args) > 0 && call.Common().Args[0] == buf
+}
+
+// fromBytes: v is buf.Bytes()/buf.String(), a phi of such (nil edges allowed), or the result of a helper
+// that returns the bytes of the buffer it is given.
+func (fc *flushCtx) fromBytes(v ssa.Value, buf ssa.Value, depth int, seen map[ssa.Value]bool) bool {
+	if v == nil || seen[v] || depth > 3 {
+		return false
+	}
+	seen[v] = true
+	if isBufMethod(v, buf, "Bytes") || isBufMethod(v, buf, "String") {
+		return true
+	}
+	switch x := v.(type) {
+	case *ssa.Phi:
+		any := false
+		for _, e := range x.Edges {
+			if k, ok := e.(*ssa.Const); ok && k.Value == nil {
+				continue
+			}
+			if !fc.fromBytes(e, buf, depth, seen) {
+				return false
+			}
+			any = true
+		}
+		return any
+	case *ssa.Call:
+		callee := x.Common().StaticCallee()
+		if callee == nil || !isModuleSSA(callee) || callee.Blocks == nil {
+			return false
+		}
+		for i, a := range x.Common().Args {
+			if a != buf || i >= len(callee.Params) {
+				continue
+			}
+			okAll, nRet := true, 0
+			for _, b := range callee.Blocks {
+				ret, ok := b.Instrs[len(b.Instrs)-1].(*ssa.Return)
+				if !ok || len(ret.Results) == 0 {
+					continue
+				}
+				rv := retVal(ret, 0)
+				if k, ok := rv.(*ssa.Const); ok && k.Value == nil {
+					continue
+				}
+				nRet++
+				if !fc.fromBytes(rv, callee.Params[i], depth+1, map[ssa.Value]bool{}) {
+					okAll = false
+				}
+			}
+			return okAll && nRet > 0
+		}
+	}
+	return false
+}
+
+// emptyEdge: which successor of b is taken when buf is empty (-1: b does not test that).
+func emptyEdge(b *ssa.BasicBlock, buf ssa.Value) int {
+	ifi, ok := b.Instrs[len(b.Instrs)-1].(*ssa.If)
+	if !ok {
+		return -1
+	}
+	bin, ok := ifi.Cond.(*ssa.BinOp)
+	if !ok || !isBufMethod(bin.X, buf, "Len") {
+		return -1
+	}
+	if k, ok := constInt(bin.Y); !ok || k != 0 {
+		return -1
+	}
+	switch bin.Op {
+	case token.GTR, token.NEQ:
+		return 1
+	case token.EQL, token.LEQ:
+		return 0
+	}
+	return -1
+}
+
+// isFlush: x writes the bytes of buf to a writer read from State.Out, directly or by calling a helper
+// that does so on every path (the helper receives the buffer).
+func (fc *flushCtx) isFlush(x ssa.Instruction, buf ssa.Value, depth int) bool {
+	call, ok := x.(*ssa.Call)
+	if !ok {
+		return false
+	}
+	if call.Common().IsInvoke() && call.Common().Method.Name() == "Write" {
+		ld, ok := call.Common().Value.(*ssa.UnOp)
+		if !ok || !fc.isOutAddr(ld.X) {
+			return false
+		}
+		return len(call.Common().Args) == 1 && fc.fromBytes(call.Common().Args[0], buf, depth, map[ssa.Value]bool{})
+	}
+	callee := call.Common().StaticCallee()
+	if callee == nil || !isModuleSSA(callee) || callee.Blocks == nil || depth > 1 {
+		return false
+	}
+	for i, a := range call.Common().Args {
+		if a == buf && i < len(callee.Params) {
+			bad, _ := fc.allPathsFlush(callee.Blocks[0], 0, callee.Params[i], false, depth+1)
+			return bad == nil
+		}
+	}
+	return false
+}
+
+// allPathsFlush: from instruction index `from` of block b, every path to a return restores State.Out (when
+// needRestore) and then flushes buf, or leaves through the buffer-is-empty edge.
+func (fc *flushCtx) allPathsFlush(b0 *ssa.BasicBlock, from0 int, buf ssa.Value, needRestore bool, depth int) (*pathResult, string) {
+	isRestore := func(x ssa.Instruction) bool {
+		s2, ok := x.(*ssa.Store)
+		if !ok || !fc.isOutAddr(s2.Addr) {
+			return false
+		}
+		if m2, ok := s2.Val.(*ssa.MakeInterface); ok && m2.X == buf {
+			return false
+		}
+		return true
+	}
+	type key struct {
+		b                 *ssa.BasicBlock
+		restored, flushed bool
+	}
+	seen := map[key]bool{}
+	var bad *pathResult
+	var why string
+	var walk func(b *ssa.BasicBlock, from int, restored, flushed bool, trail []*ssa.BasicBlock)
+	walk = func(b *ssa.BasicBlock, from int, restored, flushed bool, trail []*ssa.BasicBlock) {
+		if bad != nil {
+			return
+		}
+		if from == 0 {
+			k := key{b, restored, flushed}
+			if seen[k] {
+				return
+			}
+			seen[k] = true
+		}
+		trail = append(trail, b)
+		for i := from; i < len(b.Instrs); i++ {
+			x := b.Instrs[i]
+			if isRestore(x) {
+				restored = true
+			}
+			if restored && fc.isFlush(x, buf, depth) {
+				flushed = true
+			}
+			if _, isRet := x.(*ssa.Return); isRet {
+				if !restored || !flushed {
+					bad = &pathResult{exit: x, trace: append([]*ssa.BasicBlock{}, trail...)}
+					if !restored {
+						why = "State.Out still points at the local buffer at this return"
+					} else {
+						why = "the bytes captured in the local buffer are not written to the restored writer on this path: what the callee printed is lost"
+					}
+				}
+				return
+			}
+			if _, isPanic := x.(*ssa.Panic); isPanic {
+				return
+			}
+		}
+		ee := emptyEdge(b, buf)
+		for i, s := range b.Succs {
+			walk(s, 0, restored, flushed || (i == ee && restored), trail)
+		}
+	}
+	walk(b0, from0, !needRestore, false, nil)
+	return bad, why
 }
 
 func init() {
